@@ -2363,7 +2363,9 @@ PPL::Polyhedron::drop_some_non_integer_points(const Variables_Set* vars_p,
     }
     // After changing the system of constraints, the generators
     // are no longer up-to-date and the constraints are no longer
-    // minimized.
+    // minimized; the insertion above merged any pending constraint
+    // into the non-pending part of the system.
+    clear_pending_constraints();
     clear_generators_up_to_date();
     clear_constraints_minimized();
   }
